@@ -38,6 +38,7 @@ func TestVerifC20Exec(t *testing.T) {
 	t.Cleanup(kit.Flush)
 	t.Cleanup(func() { c20KillLeakedHooks() })
 	limit := kit.EnvInt("C20_EXEC_CASES", 6) // see c20SessPassed
+	c20CalibratePathLevel(t)
 
 	rapid.Check(t, func(t *rapid.T) {
 		if !c20ExecFailed && c20ExecPassed >= limit {
@@ -179,7 +180,7 @@ func TestVerifC20Exec(t *testing.T) {
 		closed = true
 
 		lines := pm.Log.Snapshot()
-		for _, x := range []struct {
+		table := []struct {
 			what, traceTag, record string
 			want                   int
 		}{
@@ -188,12 +189,26 @@ func TestVerifC20Exec(t *testing.T) {
 			{"runOnUnavailable", "avail-stop", "runOnUnavailable command launched", availCloses},
 			{"runOnOnline", "online-start", "runOnOnline command started", onlineOpens},
 			{"runOnOffline", "online-stop", "runOnOffline command launched", onlineCloses},
-		} {
+		}
+		// The statement is about executions: the trace files decide (first pass, every hook).
+		for _, x := range table {
 			ex, lg := traceCount(x.traceTag), c20Count(lines, "[path x] "+x.record)
-			if ex != x.want || lg != x.want {
+			if ex != x.want {
 				c20ExecFailed = true
 				t.Fatalf("%s: executed %d times according to its trace file, %d records in the log, the history implies %d\n[alwaysAvailable=%v] %s",
 					x.what, ex, lg, x.want, aa, strings.Join(hist, " ; "))
+			}
+		}
+		// A log that disagrees with correct executions only means that parts 1 and 2 cannot observe through it on this
+		// tree: inconclusive, not a violation of the statement.
+		for _, x := range table {
+			ex, lg := traceCount(x.traceTag), c20Count(lines, "[path x] "+x.record)
+			if lg != x.want {
+				c20ExecFailed = true
+				msg := fmt.Sprintf("%s: executed %d times according to its trace file, as the history implies, but %d records %q in the log: the log does not reflect executions on this tree [alwaysAvailable=%v] %s",
+					x.what, ex, lg, x.record, aa, strings.Join(hist, " ; "))
+				fmt.Printf("VERIF-INCONCLUSIVE: %s\n", msg)
+				t.Fatalf("VERIF-INCONCLUSIVE: %s", msg)
 			}
 		}
 		var cls []string
